@@ -7,5 +7,6 @@ GO=$(command -v go1.26.8 || echo /usr/local/bin/go1.26.8)
 mkdir -p ../.build ../evidence ../replays/found
 "$GO" test -c -tags verif -o ../.build/setup.test . 
 "$GO" test -c -race -tags verif -o ../.build/setup.race.test .
-rm -f ../.build/setup.test ../.build/setup.race.test
+"$GO" test -c -fuzz=Fuzz -tags verif -o ../.build/setup.fuzz.test .
+rm -f ../.build/setup.test ../.build/setup.race.test ../.build/setup.fuzz.test
 echo setup ok
